@@ -659,3 +659,11 @@ CHECKS['C14']['gens'] = CHECKS['C14'].get('gens', []) + ['Restore']
 CHECKS['C14']['level_text'] = CHECKS['C14']['level_text'] + (" RESTORE YIELDS THE CHECKPOINT'S FILES: C14_restore_yields_checkpoint_files — in the inode model of restoreFromPath, after a restore every "
     "non-LOG name of the engine directory reads exactly what the checkpoint holds under it and names the checkpoint does not have are gone, for every previous content of the engine directory and every answer of "
     "the isSameSSTFile heuristic; the statement structure of restoreFromPath (engine closed BEFORE the directory is listed, cleanup, copy) and of common.CopyFileForHardLink (replace unless same inode) is pinned by Gen/Restore.")
+
+# C18: the trimming branch of the coordinator's own loop as a theorem over regenerated decisions (Gen/CoordLoop.lean)
+_p = CHECKS['C18']['props']
+CHECKS['C18']['props'] = (_p if isinstance(_p, list) else [_p]) + ['ZanVerif.Props.C18Loop']
+CHECKS['C18']['gens'] = CHECKS['C18']['gens'] + ['CoordLoop']
+CHECKS['C18']['level_text'] = CHECKS['C18']['level_text'] + (" CHECK LOOP (Props/C18Loop): over the REGENERATED decisions of doCheckNamespaces (ISR-too-short test, aliveCount loop, trimming guard; pinned: one removal per pass, "
+    "through removeNamespaceFromNode, only without a removing node and with all ISR members fully ready): C18_trim_keeps_live_quorum — whenever the trimming guard lets a removal through, all ISR members are alive, and after "
+    "the removal at least `replica` live members remain (a strict majority); C18_trim_refuses; witness that a non-strict comparison would break it.")
